@@ -699,6 +699,11 @@ def gen_c12_pool(r, deep=0):
     cons["c2"] = gen_lin_con(r, sp, core)
     cons["c3"] = {"k": "s", "lhs": L(r.choice(core)), "sense": r.choice([">=", "<="]), "rhs": r.choice(pl)}
     cons["c4"] = {"k": "s", "lhs": ["+", ["**", L(core[0]), ["num", 2]], ["*", r.choice(pl), L(core[-1])]], "sense": "<=", "rhs": ["num", r.choice([4.0, 9.0, 25.0])]}
+    # coefficients times an explicit vector of parameter-scaled elements: linear in x, parametric
+    ve = pick(3)
+    ex["ov"] = ["chain", "+", [["lincomb", [r.choice(POS) for _ in ve], ["vexpr", [["*", r.choice(pl), L(n)] for n in ve]]], ["num", r.choice([0.0, 1.5])],
+                               ["num", 0.0], ["num", 0.0], ["num", 1.0]] + [["num", 0.0]] * deep]
+    cons["cv"] = {"k": "s", "lhs": ["lincomb", [1.0 for _ in ve], ["vexpr", [["*", r.choice(pl), L(n)] for n in ve]]], "sense": "<=", "rhs": ["num", r.choice([4.0, 9.0])]}
     # constraints without any decision variable: their truth changes with Parameter.set alone
     pa, pb = r.choice(pl), r.choice(pl)
     cons["cp0"] = {"k": "s", "lhs": pa, "sense": r.choice([">=", "<="]), "rhs": pb if r.random() < 0.6 else ["num", r.choice(PGRID)]}
@@ -722,7 +727,7 @@ def gen_c12_pool(r, deep=0):
         cons["c6"] = {"k": "s", "lhs": ["*", ["lincomb", [r.choice(POS) for _ in vnames2], vec2], r.choice(pl)], "sense": ">=", "rhs": ["num", r.choice([-3.0, 0.5])]}
     sp["expr_order"] = sorted(ex)
     sp["con_order"] = sorted(cons)
-    meta = {"convex": ["o0"], "lincons": ["c0", "c2", "c3"], "linear": ["o4"] + (["o6", "o8"] if vhs else []), "linpcons": ["c1"] + (["c5", "c6"] if vhs else [])}
+    meta = {"convex": ["o0"], "lincons": ["c0", "c2", "c3"], "linear": ["o4", "ov"] + (["o6", "o8"] if vhs else []), "linpcons": ["c1", "cv"] + (["c5", "c6"] if vhs else [])}
     return sp, meta
 
 
